@@ -75,6 +75,6 @@ class MPEOutputDevice (MidiOutputDevice):
             raise ValueError("MPE: note_off received for non-depressed note (%d)" % note_index)
         else:
             super().note_off(note_index, note.channel)
-            self.channel_assignments[note_index] = None
+            self.channel_assignments[note.channel] = None
             self.note_assignments[note_index] = None
             note.is_down = False
